@@ -14,6 +14,7 @@ RULE = ("Mode G: states = every validated model of the families with every choic
         "non-trivial = distinct state where reduce removed something and the result is not a constant")
 ASSUMPTIONS = [
     "filter errors()==[]",
+    "compounds without children are outside this check: the class documentation calls them invalid ('propositions list cannot be empty') although errors() accepts them, and reduce() raises TypeError on them on the unchanged tree",
     "only free leaves are assigned (assigning a fixed leaf would override it in the unreduced model: a harness-made difference)",
 ]
 BOUNDS = {
